@@ -86,7 +86,7 @@ def run(ctx, res):
     res.extra["framing_distribution"] = framings
     res.extra["observation_distribution"] = errs
     res.extra["harness_stats"] = {k: int(v) for k, v in stats.items()}
-    res.extra["exhaustive"] = ("alphabets and lengths: see c12Exhaustive in harness/pure/c12.go; VX lines = all cut sets x 2 EOF modes, "
+    res.extra["exhaustive_families"] = ("alphabets and lengths: see c12Exhaustive in harness/pure/c12.go; VX lines = all cut sets x 2 EOF modes, "
                                "VK k = all cut sets with <= k cuts x 2 EOF modes")
     res.samples = ([l for l in lines if "ILEN" in l][:2] + [l for l in lines if "CTM" in l and len(l) < 300][:2]
                    + [l for l in lines if l.startswith("VX\tline") and ":EOF" in l][:2] + [l for l in lines if "UEOF" in l and len(l) < 300][:2])
